@@ -1,7 +1,7 @@
 //! Stand-in for ring: everything is the real ring 0.17 except `rand::SystemRandom`, whose bytes
 //! come from the simulated world's entropy stream (and are logged there).
 
-pub use ring_real::{aead, agreement, digest, error, hkdf, hmac, pbkdf2, signature};
+pub use ring_real::{aead, agreement, digest, error, hkdf, hmac, io, pbkdf2, rsa, signature};
 
 pub mod rand {
     use ring_real::error::Unspecified;
